@@ -246,6 +246,14 @@ def script_text(spec: Spec, variant: int, dofile: str, gates: bool = False) -> s
         L.append('c="$c~"')
         kp()
     for i, (cmd, names) in enumerate(spec.seq):
+        if cmd == "uedit":
+            # the user edits a source while this run is under way (names = (source, new content)): a new file moved into place
+            L.append('printf %%s "%s" > "%s.rvnew"; mv "%s.rvnew" "%s"; echo "Q $rv_n %d 0" >> "$RV_TRACE"' % (names[1], names[0], names[0], names[0], i))
+            continue
+        if cmd == "udovar":
+            # the user replaces a rule's script while this run is under way (names = (do file, variant number))
+            L.append('cp "$RV_VARIANTS/%s.%s" "%s.rvnew"; mv "%s.rvnew" "%s"; echo "Q $rv_n %d 0" >> "$RV_TRACE"' % (names[0], names[1], names[0], names[0], names[0], i))
+            continue
         q = " ".join('"%s"' % n.replace("%", "$2") for n in names)
         # "redo-fresh": a redo that is told nothing about the jobserver above it (MAKEFLAGS removed from its environment)
         # "redo-j2": an explicit -j2 inside a script (a jobserver of its own, with the "forced in sub-redo" warning)
